@@ -78,7 +78,9 @@ pub struct Path {
     /// offset of the last instruction reached
     pub end_offset:     usize,
     /// errors raised by JUMPI with a bad target (the path continues by falling through)
-    pub soft_errors:    Vec<(ErrKind, usize)>,
+    /// (kind, offset, event id): the id is unique per occurrence and shared by the paths that
+    /// fork off afterwards
+    pub soft_errors:    Vec<(ErrKind, usize, usize)>,
     pub gas:            u64,
     /// JUMPI offsets at which this path was created by taking the branch
     pub taken_at:       Vec<usize>,
@@ -165,6 +167,7 @@ pub fn run(code: &[u8], cfg: &RefCfg) -> RefRun {
     }];
     let mut complete = true;
     let mut steps = 0usize;
+    let mut events = 0usize;
     let is_jumpdest = |t: usize| t < code.len() && kinds[t] == Kind::Start && code[t] == 0x5b;
 
     while let Some(mut t) = queue.pop() {
@@ -374,7 +377,10 @@ pub fn run(code: &[u8], cfg: &RefCfg) -> RefRun {
                     let target = st.pop().unwrap();
                     let _cond = st.pop().unwrap();
                     match target.w {
-                        None => t.path.soft_errors.push((ErrKind::JumpSymbolic, pc)),
+                        None => {
+                            events += 1;
+                            t.path.soft_errors.push((ErrKind::JumpSymbolic, pc, events))
+                        }
                         Some(tw) => match tw.as_u64_checked() {
                             Some(tt) if (tt as usize) < code.len() && tt < u32::MAX as u64 => {
                                 if is_jumpdest(tt as usize) {
@@ -386,10 +392,14 @@ pub fn run(code: &[u8], cfg: &RefCfg) -> RefRun {
                                     t.path.forks += 1;
                                     queue.push(forked);
                                 } else {
-                                    t.path.soft_errors.push((ErrKind::JumpNotJumpdest, pc));
+                                    events += 1;
+                                    t.path.soft_errors.push((ErrKind::JumpNotJumpdest, pc, events));
                                 }
                             }
-                            _ => t.path.soft_errors.push((ErrKind::JumpOutOfRange, pc)),
+                            _ => {
+                                events += 1;
+                                t.path.soft_errors.push((ErrKind::JumpOutOfRange, pc, events))
+                            }
                         },
                     }
                 }
